@@ -12,6 +12,7 @@ RULES = {
     "C12.R3": "input hook: quantized input -> torch.max(input._scale); float input -> EMA(module.input_scale, absmax_scale(input, module.activation_qtype)) stored in module.input_scale",
     "C12.R4": "output hook: raw output of module.qforward(input[0]) (dequantized), absmax_scale(., activation_qtype, axis=None), EMA with and stored to module.output_scale, then module.forward(input[0]) returned",
     "C12.R5": "absmax_scale = max|x| / StorageRange(qtype.dtype).max, per-tensor when axis is None",
+    "C12.R7": "every context calibrates: the hooks are registered on each entry of the mode object and released on each exit (the pairing rule C13.R1 re-checked) - a context entered without its hooks leaves the averages where they were",
     "C12.R6": "both hooks update scales only for QModuleMixin modules with activation_qtype not None, and are the hooks registered on entry",
 }
 
@@ -174,6 +175,10 @@ def run(chk):
     hook_paths(chk, repo, mi, post, "output_scale", "C12.R4")
     # -- R5 absmax_scale
     absmax(chk)
+    if chk.pid == "C12":
+        from ..report import AliasedCheck
+        from . import c13
+        c13.pairing(AliasedCheck(chk, {"C13.R1": "C12.R7"}))
     chk.assume("torch calls global forward pre-hooks as hook(module, args) and forward hooks as hook(module, args, output)")
 
 
